@@ -129,6 +129,8 @@ FaultCases(cl, a, R) ==
     \cup {Exch(cl, a, R, <<Term("writeerr")>>, "writeerr", 0, 0),
           Exch(cl, a, R, <<>>, "notconnected", 0, 0),
           Exch(cl, a, R, <<>>, "nilreq", 0, 0)}
+    \* the only Connect failed although the dial function produced a connection object (network clients)
+    \cup (IF cl = "serial" THEN {} ELSE {Exch(cl, a, R, <<Chunk(Len(R))>>, "connectfailed", 0, 0), Exch(cl, a, R, <<>>, "connectfailednil", 0, 0)})
 
 \* oversize: junk that never forms a complete reply before the ADU limit is crossed
 Junk(n) == [i \in 1..n |-> 0]
@@ -177,6 +179,9 @@ Corruptions(R) ==
     \cup UNION {{[R EXCEPT ![i] = v] : v \in {0, 255, (R[i] + 128) % 256}} : i \in 1..Len(R)}
     \cup {SubSeq(R, 1, n) : n \in 1..(Len(R) - 1)}
     \cup {R \o x : x \in {<<0>>, <<255, 255>>, <<R[Len(R) - 1], R[Len(R)]>>}}
+    \* the two trailer bytes exchanged (a CRC sent high byte first), and neighbouring payload bytes exchanged
+    \cup {[R EXCEPT ![Len(R) - 1] = R[Len(R)], ![Len(R)] = R[Len(R) - 1]]}
+    \cup {[R EXCEPT ![i] = R[i + 1], ![i + 1] = R[i]] : i \in 1..(Len(R) - 2)}
     \cup {[j \in 1..Len(R) |-> IF j = i THEN 255 - R[j] ELSE IF j = Len(R) THEN (R[j] + 1) % 256 ELSE R[j]] : i \in 1..(Len(R) - 1)}
 CorruptCases(cl, a, R) ==
     UNION {{Exch(cl, a, Rc, <<Chunk(Len(Rc))>>, "none", 0, 0)}
